@@ -5,6 +5,8 @@ CONSTANTS
   IterateAllFields = FALSE
   SplitEverySpace = FALSE
   CacheWidths = TRUE
+  SharedEqualRecords = FALSE
+  ClassLevelOption = FALSE
   Emit = FALSE
   EmitOff = 0
 SPECIFICATION Spec
